@@ -31,7 +31,8 @@ TRUSTED = ['modelled, not verified: hyper-h2 4.3.0 stream life cycle and open_ou
            'harness/c10_util.py: logging wrappers placed on instance attributes of the h2 connections, '
            'processor.register and handler.accept (they only record calls and re-raise)']
 ASSUMPTIONS = ['one live connection (no connection loss, GOAWAY or Channel.close during the history)',
-               'the transport is never paused (write_ready set), so reset_nowait writes its RST at once',
+               'pause_writing/resume_writing are modelled for what they change (reset_nowait does not write while paused); '
+               'that every other op first awaits write_ready only delays it',
                'MAX_CONCURRENT_STREAMS >= 1 for the progress theorems',
                'user handlers / client code are the scripted programs of the driver; every wait inside them is finite']
 
@@ -101,6 +102,7 @@ PEER = {
     'only-nonok': [(0.5, 'only:7')], 'only-ok': [(0.5, 'only:0')], 'only-norst': [(0.5, 'only:12:norst')],
     'rst': [(0.5, 'rst')], 'rst-now': [(0, 'rst')], 'rst-after-headers': [(0.5, 'headers'), (1, 'rst')],
     'rst-after-trailers': [(0.5, 'headers'), (0.75, 'data'), (1, 'trailers:0'), (1.25, 'rst')],
+    'end-without-trailers': [(0.5, 'headers'), (0.75, 'data'), (1, 'dataend')],
     'never': [],
 }
 
@@ -336,12 +338,6 @@ def evaluate(ctx, res, cases):
             ops = [t for t in run.tokens if t != 'K']
             if ops != ['o:0:0', 'e:0', 'd:0', 'd:0', 'q:0:base']:
                 res.disagreements.append({'case': case, 'model': 'd4_witness', 'impl': ops})
-            res.count('coq-witness-replayed-on-code')
-        if case.get('witness') == 'held_witness_running':
-            # the witness of C10_client_exit_reaches_server_refuted, op for op
-            ops = [t for t in run.tokens if t != 'K']
-            if ops != ['o:0:0', 'd:0', 'P', 'X:0', 'U']:
-                res.disagreements.append({'case': case, 'model': 'held_witness_running', 'impl': ops})
             res.count('coq-witness-replayed-on-code')
         if ctx.model_ok:
             ans = next(answers)
